@@ -41,6 +41,10 @@ impl<T> Injector<T> {
         _ = self.held.fetch_add(1, Ordering::SeqCst);
         _ = TOTAL_HELD.fetch_add(1, Ordering::SeqCst);
         sim::aux("injector.push", std::ptr::from_ref(self) as usize, 0, 1);
+        if std::any::type_name::<T>().contains("coroutine::") {
+            // a coroutine left its scheduler's local queue: any scheduler may pick it up
+            sim::count("cause.sched.coroutine-moved");
+        }
     }
     pub fn steal(&self) -> Steal<T> {
         sim::point("injector.steal");
